@@ -638,8 +638,9 @@ func (r *PipelineRunner) resolveScheduleAction(pipeline string, ignoreStartDelay
 }
 
 func (r *PipelineRunner) resolveDequeueJobAction(job *PipelineJob) scheduleAction {
-	// Start the job if it had a start delay but the timer finished
-	ignoreStartDelay := job.StartDelay > 0 && job.startTimer == nil
+	// Only the start delay of the job itself is relevant (the definition could have been replaced since the job was queued):
+	// start the job if it had no start delay or the timer finished
+	ignoreStartDelay := job.startTimer == nil
 	return r.resolveScheduleAction(job.Pipeline, ignoreStartDelay)
 }
 
